@@ -44,14 +44,14 @@ type rl = []func(*Run)
 type kp = []string
 
 var properties = map[string]propSpec{
-	"C01": {Rules: rl{ruleMutateRelay, ruleAcceptedApplies, ruleCascade, ruleSnapshot, ruleErrorDiscipline, ruleModuleCleanup, ruleModuleInit, ruleStoreContracts, ruleSubscriptions, ruleEntityActions, ruleAtomicity}, Keep: kp{"C1", "B8", "E4", "C7", "ERR", "E3", "J3", "J4", "S-", "E8"}, Sites: map[string][]string{"E8": {"entity:exists", "modulestate:missing"}}},
+	"C01": {Rules: rl{ruleBroadcastShape, ruleMutateRelay, ruleAcceptedApplies, ruleCascade, ruleSnapshot, ruleErrorDiscipline, ruleModuleCleanup, ruleModuleInit, ruleStoreContracts, ruleSubscriptions, ruleEntityActions, ruleAtomicity}, Keep: kp{"C3", "C1", "B8", "E4", "C7", "ERR", "E3", "J3", "J4", "S-", "E8"}, Sites: map[string][]string{"E8": {"entity:exists", "modulestate:missing"}}},
 	"C02": {Rules: rl{ruleMutateRelay, ruleAcceptedApplies, ruleAnswers, ruleSenderExcluded, ruleDecoratorForward, ruleBroadcastShape, ruleRelaySync, ruleModuleInit}, Keep: kp{"C1", "B8", "B5", "B7", "C2", "A2", "C3", "C6", "J3"}},
-	"C03": {Rules: rl{ruleSenderExcluded, ruleJoinedGuard, rulePairedState, ruleDispatchTotal, ruleAnswers, ruleModuleInit, ruleRegistry, ruleIDGenerator, ruleLeaveCallers}, Keep: kp{"J1", "J2", "E9", "A1", "B5", "J3", "E7", "D3", "E2"}},
+	"C03": {Rules: rl{ruleBroadcastShape, ruleSenderExcluded, ruleJoinedGuard, rulePairedState, ruleDispatchTotal, ruleAnswers, ruleModuleInit, ruleRegistry, ruleIDGenerator, ruleLeaveCallers}, Keep: kp{"C3", "J6", "J1", "J2", "E9", "A1", "B5", "J3", "E7", "D3", "E2"}},
 	"C04": {Rules: rl{ruleDispatchTotal, ruleAnswers, ruleAcceptedApplies, ruleJoinedGuard, ruleDecoratorForward, ruleModuleCleanup, ruleStoreContracts, ruleSubscriptions}, Keep: kp{"A1", "B", "J2", "A2", "E3", "S-"}},
 	"C05": {Rules: rl{ruleOwnerGuard, ruleAnswers, ruleSenderExcluded, ruleIDGenerator, ruleIDSources}, Keep: kp{"D1", "B5", "J1", "D3", "D2", "D5"}},
 	"C06": {Rules: rl{ruleLeaveComplete, ruleLeaveCallers, ruleModuleCleanup, ruleCascade, ruleDecoratorForward, ruleMutateRelay, ruleSnapshot, ruleSubscriptions, ruleStoreContracts}, Keep: kp{"E1", "E2", "E3", "E4", "E6", "E9", "A2", "C1", "C7", "S-UnsubscribeAll", "S-DeleteByEntity"}},
-	"C07": {Rules: rl{ruleLeaveComplete, ruleLeaveCallers, ruleRegistry, ruleIDGenerator, ruleFramePair, ruleAnswers, ruleAtomicity}, Keep: kp{"E1", "E2", "E6", "E7", "D3", "B4", "B1", "E8"}, Sites: map[string][]string{"B": {"HandleParticipantJoin"}, "E8": {"registry:", "session:empty"}}},
-	"C08": {Rules: rl{ruleDecoratorForward, rulePBNil, ruleFunnelOnce, ruleGaugePair, ruleWaitFor, rulePanicContainment, ruleClampSymmetry, ruleTaintAlloc, ruleDeferUnlock, ruleFramePair, ruleRelaySync}, Keep: kp{"A2", "G1", "E5", "G5", "G6", "F4", "G2", "G3", "G4", "F6b", "E6", "C6"}},
+	"C07": {Rules: rl{rulePairedState, ruleLeaveComplete, ruleLeaveCallers, ruleRegistry, ruleIDGenerator, ruleFramePair, ruleAnswers, ruleAtomicity}, Keep: kp{"E1", "E2", "E6", "E7", "E9", "D3", "B4", "B1", "E8"}, Sites: map[string][]string{"B": {"HandleParticipantJoin"}, "E8": {"registry:", "session:empty"}}},
+	"C08": {Rules: rl{rulePairedState, ruleDecoratorForward, rulePBNil, ruleFunnelOnce, ruleGaugePair, ruleWaitFor, rulePanicContainment, ruleClampSymmetry, ruleTaintAlloc, ruleDeferUnlock, ruleFramePair, ruleRelaySync}, Keep: kp{"A2", "G1", "E5", "G5", "G6", "F4", "G2", "G3", "G4", "F6b", "E6", "C6", "E9"}},
 	"C09": {Rules: rl{ruleGuardedBy, ruleNoEscape, ruleLockOrder, ruleLockPairing, ruleSplitCriticalSection, ruleWaitFor, ruleDeferUnlock, ruleFramePair, ruleAtomicity, ruleThreadConfinement}},
 	"C10": {Rules: rl{ruleIDGenerator, ruleStoreContracts, ruleSplitCriticalSection, ruleIDSources, ruleEntityActions, ruleRegistry, ruleAtomicity}, Keep: kp{"D3", "D4", "E8a", "D5", "E7", "E8"}, Sites: map[string][]string{"E8": {"session:empty"}}},
 	"C11": {Rules: rl{rulePBNil, ruleSnapshot, ruleAnswers, ruleOwnerGuard, ruleFramePair, ruleIDGenerator, ruleMutateRelay, ruleFlagWrap}, Keep: kp{"G1", "C11-pose", "B5", "B7", "D1", "E6", "D3", "C1", "C4c"}},
